@@ -148,6 +148,18 @@ func (a *Alerts) Get(fp model.Fingerprint) (*types.Alert, error) {
 
 // Set unconditionally sets the alert in memory.
 func (a *Alerts) Set(alert *types.Alert) error {
+	return a.set(alert, false)
+}
+
+// SetIfNotOlder sets the alert in memory unless the store already holds an
+// alert with the same fingerprint that was updated more recently. It is meant
+// for stores written by several goroutines that may apply the updates of one
+// alert out of order: an older update must never overwrite a newer one.
+func (a *Alerts) SetIfNotOlder(alert *types.Alert) error {
+	return a.set(alert, true)
+}
+
+func (a *Alerts) set(alert *types.Alert, keepNewer bool) error {
 	a.Lock()
 	defer a.Unlock()
 
@@ -157,6 +169,12 @@ func (a *Alerts) Set(alert *types.Alert) error {
 
 	fp := alert.Fingerprint()
 	name := alert.Name()
+
+	if keepNewer {
+		if old, ok := a.alerts[fp]; ok && alert.UpdatedAt.Before(old.UpdatedAt) {
+			return nil
+		}
+	}
 
 	// Apply per alert limits if necessary
 	if a.perAlertLimit > 0 {
